@@ -35,6 +35,7 @@ type Program struct {
 	ChanSize  int      `json:"chansize"`
 	FailCB    string   `json:"failcb"`   // path whose callback fails ("" = none)
 	FailList  string   `json:"faillist"` // directory whose listing fails ("" = none)
+	FailGone  bool     `json:"faillist_gone,omitempty"` // ... because it vanished after its parent was listed (IsDir false)
 	// KillAt / KillEvent: the loop is bound to an event scope, and the callback of this path fires Kill
 	// (or Error) on that scope - the walk is interrupted from outside, no callback or listing fails
 	KillAt    string `json:"kill_at,omitempty"`
@@ -64,6 +65,25 @@ type fsAlias = filesystem.Filespace
 type failingFS struct {
 	fsAlias
 	failDir string
+	gone    bool // the directory has vanished: besides the failing listing, IsDir / IsExist answer false
+}
+
+func (f *failingFS) isFailDir(p string) bool {
+	return strings.TrimSuffix(strings.TrimPrefix(p, "./"), "/") == f.failDir
+}
+
+func (f *failingFS) IsDir(p string) bool {
+	if f.gone && f.isFailDir(p) {
+		return false
+	}
+	return f.fsAlias.IsDir(p)
+}
+
+func (f *failingFS) IsExist(p string) bool {
+	if f.gone && f.isFailDir(p) {
+		return false
+	}
+	return f.fsAlias.IsExist(p)
 }
 
 func (f *failingFS) ReadDir(p string) (r []os.FileInfo, err error) {
@@ -87,7 +107,7 @@ func body(p Program, o *obs) func() {
 		}
 		var walked filesystem.Filespace = fs
 		if p.FailList != "" {
-			walked = &failingFS{fsAlias: fs, failDir: p.FailList}
+			walked = &failingFS{fsAlias: fs, failDir: p.FailList, gone: p.FailGone}
 		}
 		cb := func(list *[]string) filesystem.LoopOn {
 			return func(_ filesystem.Filespace, sub string) error {
@@ -378,6 +398,12 @@ func programs(thorough bool) []Program {
 	p.Name, p.Filter, p.FailList = "faillist", "none", "d"
 	add(p)
 	p.Producers = 2
+	add(p)
+	// the directory vanished between its parent's listing and its own (listing fails, IsDir is false):
+	// a listing error all the same
+	p.Name, p.FailGone = "faillist-gone", true
+	add(p)
+	p.Producers = 1
 	add(p)
 	// interrupted from outside: the loop's event scope fires Kill / Error while the walk is in progress
 	// (with an empty error list nothing may have been skipped)
